@@ -754,7 +754,7 @@ again:
 const char *flatcc_json_parser_integer(flatcc_json_parser_t *ctx, const char *buf, const char *end,
         int *value_sign, uint64_t *value)
 {
-    uint64_t x0, x = 0;
+    uint64_t d, x = 0;
     const char *k;
 
     if (buf == end) {
@@ -764,12 +764,13 @@ const char *flatcc_json_parser_integer(flatcc_json_parser_t *ctx, const char *bu
     *value_sign = *buf == '-';
     buf += *value_sign;
     while (buf != end && *buf >= '0' && *buf <= '9') {
-        x0 = x;
-        x = x * 10 + (uint64_t)(*buf - '0');
-        if (x0 > x) {
-            return flatcc_json_parser_set_error(ctx, buf, end, value_sign ?
+        d = (uint64_t)(*buf - '0');
+        /* Test before multiplying: `x * 10 + d` can wrap to a larger value. */
+        if (x > (UINT64_MAX - d) / 10) {
+            return flatcc_json_parser_set_error(ctx, buf, end, *value_sign ?
                     flatcc_json_parser_error_underflow : flatcc_json_parser_error_overflow);
         }
+        x = x * 10 + d;
         ++buf;
     }
     if (buf == k) {
